@@ -436,21 +436,39 @@ func vfC06TempDir(t vfC06Fataler) (dir string, cleanup func()) {
 // exception, so that an edit changes the kind of the entry in every direction.
 var vfC06Placeholders = []string{"192.0.2.250", "2001:db8:ffff::250", "placeholder-target.invalid", "A", "AAAA"}
 
+// vfC06Inert are entries that match no name that can be asked (the names that
+// are looked up are never empty, and nothing asks for the inert-*.invalid
+// names): an empty entry, as POST /control/rewrite/add with an empty object or
+// a hand edit leaves it in the file, entries lacking the domain or the answer,
+// and an unrelated complete one.  A table holding them must resolve every
+// question as the table without them does.
+var vfC06Inert = []vfC06Entry{
+	{Domain: "", Answer: ""},
+	{Domain: "", Answer: "192.0.2.250"},
+	{Domain: "inert-a.invalid", Answer: ""},
+	{Domain: "", Answer: "placeholder-target.invalid"},
+	{Domain: "inert-b.invalid", Answer: "2001:db8:ffff::250"},
+	{Domain: "", Answer: "AAAA"},
+}
+
 // vfC06Build makes a DNSFilter holding the table in the given order.  mode 0:
 // from the configuration; 1: every entry through POST /control/rewrite/add;
 // 2: first half from the configuration, the rest through the API; 3: every
 // position first holds a placeholder entry (from the configuration or the API)
 // and is then edited into the wanted entry through PUT /control/rewrite/update;
 // 4: through the API with junk entries in between that are then removed through
-// POST /control/rewrite/delete.
+// POST /control/rewrite/delete; 5 and 6: as 0 and 2, but the stored
+// configuration also holds inert entries (vfC06Inert) before, between and after
+// the wanted ones, as a file written by an older version or by hand does.
 func vfC06Build(t vfC06Fataler, dir string, tab []vfC06Entry, mode int) (d *DNSFilter) {
 	vfC06Quiet.Do(func() { log.SetOutput(io.Discard) })
 
+	inert := mode == 5 || mode == 6
 	split := len(tab)
 	switch mode {
 	case 1, 4:
 		split = 0
-	case 2:
+	case 2, 6:
 		split = len(tab) / 2
 	case 3:
 		split = (len(tab) + 1) / 2
@@ -464,11 +482,26 @@ func vfC06Build(t vfC06Fataler, dir string, tab []vfC06Entry, mode int) (d *DNSF
 		DataDir:        dir,
 		ConfigModified: func() {},
 	}
+	nInert := 0
+	addInert := func() {
+		e := vfC06Inert[(nInert+len(tab))%len(vfC06Inert)]
+		nInert++
+		conf.Rewrites = append(conf.Rewrites, &LegacyRewrite{Domain: e.Domain, Answer: e.Answer})
+	}
 	for i, e := range tab[:split] {
 		if mode == 3 {
 			e = placeholder(i)
 		}
+		if inert && i%2 == 0 {
+			addInert()
+			if i%4 == 2 {
+				addInert()
+			}
+		}
 		conf.Rewrites = append(conf.Rewrites, &LegacyRewrite{Domain: e.Domain, Answer: e.Answer})
+	}
+	if inert && len(tab)%2 == 0 {
+		addInert()
 	}
 
 	d, err := New(conf, nil)
@@ -514,7 +547,7 @@ func vfC06Build(t vfC06Fataler, dir string, tab []vfC06Entry, mode int) (d *DNSF
 		}
 	}
 
-	if mode >= 3 {
+	if mode == 3 || mode == 4 {
 		// what the list API shows must be the wanted table, in order
 		w := httptest.NewRecorder()
 		d.handleRewriteList(w, httptest.NewRequest(http.MethodGet, "/control/rewrite/list", nil))
@@ -831,7 +864,10 @@ func TestVFC06Table(t *testing.T) {
 	vfkit.Begin(t)
 	rapid.Check(t, func(t *rapid.T) {
 		tab, pool, heads := vfC06DrawTable(t)
-		mode := rapid.IntRange(0, 4).Draw(t, "build_mode")
+		mode := rapid.IntRange(0, 6).Draw(t, "build_mode")
+		if mode >= 5 {
+			vfC06.Class("build:inert_entries_in_configuration")
+		}
 
 		orders := [][]vfC06Entry{tab}
 		nOrders := rapid.IntRange(1, 2).Draw(t, "extra_orders")
